@@ -111,7 +111,9 @@ RefusalIsNoOp  == [][(made /\ oc' # "ok") => p' = p]_vars
 InvConsensusHere == made => Law_Consensus(p, FALSE) /\ Law_Consensus(p, TRUE)
 InvProbHere      == made => Law_Probabilities(p, 0) /\ Law_Probabilities(p, 1)
 InvHelpersHere   == made => Law_Helpers(p, FirstSeq(p), 1)
-HereIdx          == IntIdx((-Len(p.rows))..(Len(p.rows) - 1)) \cup SliceIdx({-1, 1}, {-1, 2}, {-1, 2})
-InvIndexHere     == made => \A i1 \in HereIdx : \A i2 \in SliceIdx({1}, {-1}, {-1}) \cup IntIdx({0}) :
+SomeSlices       == {<<"slice", <<Some(1), None, None>>>>, <<"slice", <<None, None, Some(-1)>>>>,
+                     <<"slice", <<None, Some(-1), Some(2)>>>>}
+HereIdx          == IntIdx((-Len(p.rows))..(Len(p.rows) - 1)) \cup SomeSlices
+InvIndexHere     == made => \A i1 \in HereIdx : \A i2 \in SomeSlices \cup IntIdx({0}) :
                                Law_IndexCompose(p, i1, i2)
 =============================================================================
